@@ -160,7 +160,10 @@ def gen_match_case(rng, k):
     else:
         start = rng.randint(0, horizon) * unit
         end = start + rng.randint(1, horizon) * unit
-    return {"id": k, "prim": prim, "sec": sec, "mi": mi, "mi_form": form, "start": start, "end": end}
+    # file names: plain time stamps, or a user placeholder in front of them / as a sub directory, valued so that the order of
+    # the paths is NOT the order of the times (the partners of a primary must still come in time order)
+    naming = rng.choice(["plain", "plain", "prefix", "subdir"])
+    return {"id": k, "prim": prim, "sec": sec, "mi": mi, "mi_form": form, "start": start, "end": end, "naming": naming}
 
 
 def run_match_impl(case):
@@ -168,13 +171,23 @@ def run_match_impl(case):
     root = Path(tempfile.mkdtemp(prefix="verif_c03_"))
     try:
         sets = []
+        naming = case.get("naming", "plain")
+        sats = ["zulu", "mike", "alfa"]           # descending in path order while the times ascend
         for name, files in (("a", case["prim"]), ("b", case["sec"])):
             d = root / name
             d.mkdir()
-            for (a, b) in files:
+            for k, (a, b) in enumerate(sorted(files)):
                 s, e = T0 + dt.timedelta(seconds=a), T0 + dt.timedelta(seconds=b)
-                (d / f"{s:%Y%m%dT%H%M%S}-{e:%Y%m%dT%H%M%S}.dat").touch()
-            sets.append(FileSet(str(d / TEMPLATE), name=name))
+                base = f"{s:%Y%m%dT%H%M%S}-{e:%Y%m%dT%H%M%S}.dat"
+                if naming == "prefix":
+                    (d / f"{sats[k % 3]}_{base}").touch()
+                elif naming == "subdir":
+                    (d / sats[k % 3]).mkdir(exist_ok=True)
+                    (d / sats[k % 3] / base).touch()
+                else:
+                    (d / base).touch()
+            tmpl = {"plain": TEMPLATE, "prefix": "{sat}_" + TEMPLATE, "subdir": "{sat}/" + TEMPLATE}[naming]
+            sets.append(FileSet(str(d / tmpl), name=name))
         start, end = T0 + dt.timedelta(seconds=case["start"]), T0 + dt.timedelta(seconds=case["end"])
         try:
             mi = case["mi"]
